@@ -47,13 +47,16 @@ type ScriptPlan struct {
 	LegacyVer  uint16    `json:"legacy_ver,omitempty"` // ClientHello.legacy_version of a plain hello (0 = 0x0303)
 	// HRRThenHello2 (pass-through family): the backend answers with a
 	// HelloRetryRequest and the client repeats its hello; both must pass untouched.
-	HRRThenHello2 bool         `json:"hrr_then_hello2,omitempty"`
-	Mutations     []Mutation   `json:"mutations,omitempty"`
-	Chunks        []int        `json:"chunks,omitempty"`
-	Trailer       []TrailerRec `json:"trailer,omitempty"` // records that follow the hello
-	ReadBuf       int          `json:"read_buf,omitempty"`
-	Expect        string       `json:"expect"` // accept | passthrough | reject (passthrough or abort) | abort
-	Alerts        []int        `json:"alerts,omitempty"`
+	HRRThenHello2 bool `json:"hrr_then_hello2,omitempty"`
+	// InnerSIDLen > 0: a non-conforming encoder left a legacy_session_id of that
+	// length in EncodedClientHelloInner (the outer one must still win).
+	InnerSIDLen int          `json:"inner_sid_len,omitempty"`
+	Mutations   []Mutation   `json:"mutations,omitempty"`
+	Chunks      []int        `json:"chunks,omitempty"`
+	Trailer     []TrailerRec `json:"trailer,omitempty"` // records that follow the hello
+	ReadBuf     int          `json:"read_buf,omitempty"`
+	Expect      string       `json:"expect"` // accept | passthrough | reject (passthrough or abort) | abort
+	Alerts      []int        `json:"alerts,omitempty"`
 }
 
 type TrailerRec struct {
@@ -127,7 +130,7 @@ func minRunFor(ms []Mutation) int {
 		switch m.Kind {
 		case "oe-order":
 			n = max(n, 2)
-		case "oe-odd", "oe-badlen", "oe-short", "oe-repeat", "oe-absent", "oe-ech", "oe-twice":
+		case "oe-odd", "oe-badlen", "oe-short", "oe-repeat", "oe-absent", "oe-ech", "oe-twice", "oe-bomb":
 			n = max(n, 1)
 		}
 	}
@@ -207,6 +210,9 @@ func buildScript(seed uint64, p *ScriptPlan) (*built, error) {
 
 	// --- stage B: EncodedClientHelloInner
 	encoded := echbox.EncodeInner(inner, from, to, p.Pad)
+	if p.InnerSIDLen > 0 {
+		encoded = echbox.EncodeInnerSID(inner, from, to, p.Pad, core.Bytes(r, p.InnerSIDLen))
+	}
 	oeTypes := func() []uint16 {
 		var ts []uint16
 		for _, e := range inner.Exts[from:to] {
@@ -276,10 +282,36 @@ func buildScript(seed uint64, p *ScriptPlan) (*built, error) {
 			rebuild(echbox.OuterExtsExt(ts), false)
 		case "oe-twice":
 			rebuild(echbox.OuterExtsExt(oeTypes()), true)
+		case "oe-bomb":
+			// one large shared extension referenced as often as the list allows
+			big := core.Bytes(r, 12000+m.A%2000)
+			bi := -1
+			for i := from; i < to; i++ {
+				if t := inner.Exts[i].Type; t != echbox.ExtSNI && t != echbox.ExtALPN && t != echbox.ExtVersions {
+					bi = i
+					break
+				}
+			}
+			if bi < 0 {
+				return nil, errSkip
+			}
+			from = bi
+			t := inner.Exts[from].Type
+			inner.Exts[from].Data = big
+			outer.Exts[outer.Find(t)].Data = append([]byte(nil), big...)
+			ts := make([]uint16, 127)
+			for i := range ts {
+				ts[i] = t
+			}
+			to = from + 1
+			b.from, b.to = from, to
+			rebuild(echbox.OuterExtsExt(ts), false)
 		case "trunc-inner":
 			// cut the encoded inner short (still sealed authentically)
+			// (at least one byte is kept: an empty plaintext is indistinguishable
+			// from a payload that does not open, and falls back to the outer hello)
 			n := len(encoded) - p.Pad
-			encoded = encoded[:m.A%n]
+			encoded = encoded[:1+m.A%(n-1)]
 		case "ext-remnant":
 			// 1..3 stray bytes at the end of the inner extensions block, all
 			// enclosing lengths consistent
